@@ -1200,3 +1200,30 @@ def truthy(values):
     if values and values[0] == "otherwise" and values[1] == ("1",):
         return False
     return None
+
+
+_FLIP_CMP = {"Lt": "Gt", "Gt": "Lt", "Le": "Ge", "Ge": "Le", "Eq": "Eq", "Ne": "Ne"}
+
+
+def norm_cmp(o, left_pred):
+    """Canonical form of a comparison origin: returns (op, lhs, rhs) with the side satisfying left_pred on the left (operands and
+    operator flipped if the source wrote it the other way round: `max <= len`  ==  `len >= max`), looking through `!`.  None if
+    `o` is not a comparison or no side satisfies the predicate."""
+    neg = False
+    while o[0] == "unop" and o[1] == "Not":
+        o = o[2]
+        neg = not neg
+    if o[0] == "call" and o[1].callee.get("name") in ("lt", "le", "gt", "ge", "eq", "ne") and len(o[1].args) == 2:
+        op = o[1].callee.get("name").capitalize()
+        l, r = o[1].body.origin(o[1].args[0], through_calls=("deref",)), o[1].body.origin(o[1].args[1], through_calls=("deref",))
+    elif o[0] == "binop" and o[1] in _FLIP_CMP:
+        op, l, r = o[1], o[2], o[3]
+    else:
+        return None
+    if neg:
+        op = {"Lt": "Ge", "Ge": "Lt", "Gt": "Le", "Le": "Gt", "Eq": "Ne", "Ne": "Eq"}[op]
+    if left_pred(l):
+        return op, l, r
+    if left_pred(r):
+        return _FLIP_CMP[op], r, l
+    return None
